@@ -287,6 +287,14 @@ func pubWorld() *fedi.Net {
 	simple["attributedTo"] = h1 + "/users/alice"
 	n.Serve(simple)
 	n.Serve(fedi.Activity("Announce", h1+"/acts/ann", h1+"/users/bob", h1+"/notes/simple"))
+	// a reply that carries its parent with it; the parent lists its addresses the short way
+	// (bare strings next to a Link object)
+	carried := fedi.Note(h1+"/notes/carried-parent", "carried parent")
+	carried["url"] = []any{h1 + "/notes/carried-parent.html", fedi.Link(h1+"/notes/carried-parent.txt", "as text", "text/plain"), h1 + "/notes/carried-parent.gmi"}
+	carried["attachment"] = []any{fedi.Link("https://m.example/carried", "pic", "image/png")}
+	withParent := fedi.Note(h1+"/notes/with-parent", "reply that embeds its parent")
+	withParent["inReplyTo"] = carried
+	n.Serve(withParent)
 	dup := fedi.Note(h1+"/notes/dup", "dup authors")
 	dup["attributedTo"] = []any{h1 + "/users/alice", h1 + "/users/alice", h1 + "/users/alice"}
 	n.Serve(dup)
@@ -445,6 +453,29 @@ func pubScenarios() []pubScenario {
 				s += " " + pub.VerifIdentity(it) + ":" + it.Name()
 			}
 			return s
+		}},
+		{"P7-two-loaders-build-one-carried-parent", func() string {
+			// what two surroundings loaders of the same reply do (the reply is selected again
+			// while its first loader is still at work): both build the parent the reply carries
+			p, ok := pub.New(h1+"/notes/with-parent", nil).(*pub.Post)
+			if !ok {
+				return "not a post"
+			}
+			var got [2]string
+			for i := 0; i < 2; i++ {
+				i := i
+				verifrt.GoTag(fmt.Sprintf("loader%d-", i), func() {
+					ps, _ := p.Parents(1)
+					for _, x := range ps {
+						got[i] += pub.VerifIdentity(x) + ":" + x.Name() + ";"
+					}
+				})
+			}
+			verifrt.Quiesce()
+			if got[0] != got[1] {
+				return "the two loaders disagree: " + got[0] + " | " + got[1]
+			}
+			return got[0]
 		}},
 		{"P5a-new-splicer-three-inputs", func() string {
 			sp := splicer.NewSplicer([]string{h1 + "/users/alice", h1 + "/notes/multi/replies", h1 + "/users/bob"})
